@@ -31,6 +31,18 @@ def fan_net(k, nvars=1):
     return assign_ids(root)
 
 
+def skip_edge_net(b_first, heavy):
+    """a sub-circuit `b` that is a child of the root AND of the root's other child `a` (an edge that jumps over a layer: layers
+    [root], [a], [b, ...], [leaves]); with most of the root's weight on the direct edge every row of a small batch descends
+    root -> b and the layer of `a` receives no row at all"""
+    b = Product(children=[Bernoulli(0, 0.7), Bernoulli(1, 0.2)])
+    b2 = Product(children=[Bernoulli(0, 0.1), Bernoulli(1, 0.9)])
+    a = Sum(children=[b, b2], weights=np.array([0.5, 0.5], dtype=np.float32))
+    w = np.array([heavy, 1.0 - heavy], dtype=np.float32)
+    root = Sum(children=[b, a], weights=w) if b_first else Sum(children=[a, b], weights=w[::-1].copy())
+    return assign_ids(root)
+
+
 def clt_product_net(rs):
     """products whose children are a Chow-Liu leaf (two columns) and univariate leaves: all leaves of one layer are reached by the
     same rows"""
@@ -249,7 +261,9 @@ def run(ctx):
     if E._verif_hooks is None:
         raise Infra('verification hooks are not active in deeprob.spn.algorithms.evaluation (DEEPROB_KIT_VERIF=1 and PYTHONPATH must contain /verif/hooks)')
     nets = [('fan2', fan_net(2)), ('fan5', fan_net(5)), ('fan16', fan_net(16)), ('fan4x3', fan_net(4, 3)),
-            ('clt-under-product', clt_product_net(np.random.RandomState(np_seed(ctx.sub_rng('cltprod')))))]
+            ('clt-under-product', clt_product_net(np.random.RandomState(np_seed(ctx.sub_rng('cltprod'))))),
+            ('skip-edge-b-first', skip_edge_net(True, 0.97)), ('skip-edge-a-first', skip_edge_net(False, 0.97)),
+            ('skip-edge-balanced', skip_edge_net(True, 0.5))]
     for k in range(10 if quick else 150):
         rs = np.random.RandomState(np_seed(ctx.sub_rng('dag', k)))
         nets.append((f'dag{k}', random_dag(rs)))
